@@ -2,5 +2,4 @@ package main
 
 import "gmsverif/lib/vio"
 
-func runC18(o opts, w *vio.Writer, rep *vio.Report) { vio.Fatal("c18 not built yet") }
 func runC23(o opts, w *vio.Writer, rep *vio.Report) { vio.Fatal("c23 not built yet") }
